@@ -54,7 +54,7 @@ def rand_scenario(rng, tier="quick"):
     for k in range(m):
         a = rng.randint(0, T)
         d = rng.randint(1, D)        # a zero-length stay is rejected by Interface (SessionInfo) for every scheduler
-        e = rng.choice([0.0005, 0.3, 0.6, 0.64, 1.0, 2.0, 5.0, 20.0])
+        e = rng.choice([0.0, 0.0005, 0.3, 0.6, 0.64, 1.0, 2.0, 5.0, 20.0])    # 0 kWh: park-only session, satisfied from the start
         p = rng.choice([3.3, 7.68, 7.68])
         sessions.append(dict(k=k, arrival=a, departure=a + d, energy=e, max_power=p))
     rng.shuffle(sessions)
@@ -395,7 +395,8 @@ def _direct_ops(sc, net, evs):
             net.unplug(by_k[op[1]].station_id, by_k[op[1]].session_id)
         else:
             for k, ev in by_k.items():
-                ev._energy_delivered = ev.requested_energy if k in op[1] else 0
+                # satisfied EVs: exactly the request, or over-delivered (a last period that was not capped)
+                ev._energy_delivered = (ev.requested_energy + (0.5 if k % 3 == 0 else 0)) if k in op[1] else 0
             net.post_charging_update()
         if sc.get("poke"):
             # the caller mutates what the network handed out: must not reach the network
